@@ -257,6 +257,8 @@ def run_reuse(case, ctx, fmts, strip):
             rec.monitor("instance-reuse")
             rec.evaluation()
             rng = random.Random("reuse|%s|%s" % (case.get("i"), fmt))
+            from checks.c01_xml import reuse_after_refusal
+            reuse_after_refusal(rec, case, fmt, doc)
             try:
                 w = ODMLWriter(fmt)
                 r = ODMLReader(fmt, show_warnings=False)
